@@ -1955,6 +1955,10 @@ def c10b(chk):
         ok = "sfs_core::input::site::reader::Reader::current_contig" in srcs and "sfs_core::input::site::reader::Reader::current_position" in srcs and len(phs) >= 1
         chk.ob("C10.b", "handle_skipped_site/strict-error-names-contig-and-position", ok, h.loc(b),
                "the strict-mode error must display current_contig() and current_position() (sources: %s)" % sorted(srcs))
+        r_ = an.contig_then_position(h, t, phs)
+        if r_ is not None:
+            chk.ob("C10.b", "handle_skipped_site/strict-error-shows-position-next-to-contig", r_[0], h.loc(b),
+                   "the site is named as contig followed by its position, nothing displayed in between (%s)" % r_[1])
     if not found:
         chk.fail("C10.b", "handle_skipped_site/strict-error-names-contig-and-position", h.loc(), "no formatted anyhow error found")
     # the two accessors are evaluated for the *current* record: they are called on self.reader in this function
